@@ -58,7 +58,7 @@ func newGraphBranch[T any](r *runnablePacker[T, []string, any], endNodes map[str
 	return &GraphBranch{
 		invoke: func(ctx context.Context, input any) (output []string, err error) {
 			nInput, ok := input.(T)
-			if !ok {
+			if !ok && (input != nil || generic.TypeOf[T]().Kind() != reflect.Interface) {
 				panic(newUnexpectedInputTypeErr(generic.TypeOf[T](), reflect.TypeOf(input)))
 			}
 			return r.Invoke(ctx, nInput)
